@@ -141,6 +141,10 @@ def run(ctx, chk):
                                "type 5 [%s] at %d bytes: destination has %s characters and DTE is %s; %d complete characters are present and DTE is %s" % (
                                    cfg, nb, sh["dest_chars"], "read" if sh["dte_present"] else "defaulted", chars, "present" if dte else "missing"),
                                sample={"type": 5, "bytes": nb, "destination_chars": chars, "dte_present": dte})
+                        if not sh["dte_present"]:
+                            got = flat.get("dte")
+                            chk.ob(got == ("unitvariant", "NotReady"), "C14/type5/dte-default/%s" % (got,),
+                                   "type 5 [%s] at %d bytes: a missing DTE is reported as %r, expected the default 'not ready'" % (cfg, nb, got))
                     elif t == 16:
                         want = bits - 92 >= 52
                         chk.ob(sh["second"] == want, "C14/type16/%d/%s" % (nb, sh["second"]), "type 16 [%s] at %d bytes: second station %s, expected %s" % (cfg, nb, sh["second"], want))
